@@ -18,12 +18,16 @@ def sha(p):
     return hashlib.sha256(Path(p).read_bytes()).hexdigest()
 
 
-def write_sources(d, srcs):
+def write_sources(d, srcs, two_dirs=False):
     sd = d / "src"
     sd.mkdir(parents=True, exist_ok=True)
     paths = []
-    for s in srcs:
-        p = sd / s[0]
+    for k, s in enumerate(srcs):
+        # two source directories (artwork plus a third-party set, as in noto-emoji): the last source lives apart, so
+        # that its relative spelling from inside the first directory starts with ".."
+        sub = sd / ("flags" if two_dirs and k == len(srcs) - 1 and len(srcs) > 1 else "faces") if two_dirs else sd
+        sub.mkdir(parents=True, exist_ok=True)
+        p = sub / s[0]
         p.write_text(s[1])
         paths.append(p)
     return paths
@@ -80,7 +84,7 @@ def run_determinism(report, n_sets, rng, formats):
         plans.append((fmt, srcs))
     for i, (fmt, srcs) in enumerate(plans):
         with scratch_dir("verif-c08-") as d:
-            paths = write_sources(d, srcs)
+            paths = write_sources(d, srcs, two_dirs=True)
             opts = ["--color_format", fmt, "--upem", str(rng.choice([1000, 1024])), "--family", "Det Test"]
             if fmt in ("cbdt", "sbix"):
                 opts += ["--bitmap_resolution", "32"]
@@ -97,6 +101,9 @@ def run_determinism(report, n_sets, rng, formats):
             other.mkdir(parents=True)
             variants.append(("other cwd/build dir + -j16 + duplicate arg", other / "out" / "bd", opts + [os.path.relpath(p, other) for p in paths] + [os.path.relpath(paths[0], other)], other, "3", 16))
 
+            # the same files spelled relative to a working directory inside one of the source directories
+            inside = paths[0].parent
+            variants.append(("cwd inside a source directory, relative spellings", d / "b4", opts + [os.path.relpath(p, inside) for p in paths], inside, "0", None))
             if "svg" in fmt:  # document grouping iterates sets of strings: probe more hash seeds
                 for hs in ("11", "23", "42", "99", "123", "1000"):
                     variants.append((f"hash seed {hs}", d / f"bs{hs}", base_args, d, hs, None))
@@ -128,7 +135,7 @@ def run_determinism(report, n_sets, rng, formats):
             base = inter["base"]
             for name, m in inter.items():
                 # files that spell source paths relative to the build directory legitimately differ when the directory does
-                pathful = (".toml", ".glyphmap") if name.startswith("other cwd") else (".toml",)
+                pathful = (".toml", ".glyphmap") if name.startswith(("other cwd", "cwd inside")) else (".toml",)
                 diff = [k for k in base if k in m and m[k] != base[k] and not k.endswith(pathful) and k != "build.ninja"]
                 if diff:
                     case.update(variant=name, differing_intermediates=diff[:5])
@@ -191,6 +198,34 @@ def run_graphs(report, n, rng):
             if probs:
                 report_failure(report, f"graph_decl_{i}", metas[-1])
                 return
+    # a configuration with two masters (two glyph-map edges, two font-writing edges): the graph must stay well formed and
+    # no two edges may write one and the same response file (they run concurrently)
+    with scratch_dir("verif-c08g2-") as d:
+        docs, srcs = e2e.gen_sources(rng, n=2)
+        for m in ("thin", "bold"):
+            (d / m).mkdir()
+            for s_ in srcs:
+                (d / m / s_[0]).write_text(s_[1])
+        (d / "vf.toml").write_text('output_file="VF.ttf"\ncolor_format="glyf_colr_1"\n[axis.wght]\nname="Weight"\ndefault=100\n'
+                                   '[master.thin]\nstyle_name="Thin"\nsrcs=["thin/*.svg"]\n[master.thin.position]\nwght=100\n'
+                                   '[master.bold]\nstyle_name="Bold"\nsrcs=["bold/*.svg"]\n[master.bold.position]\nwght=700\n')
+        rc, out = build.run_cli(["--build_dir", d / "build", "--noexec_ninja", d / "vf.toml"], cwd=d)
+        if rc != 0:
+            report_failure(report, "graph_driver_vf", dict(kind="e2e", format="two masters", exit=rc, log=out[-1200:]))
+            return
+        lit, rules, order, producer = graph_case(d / "build" / "build.ninja")
+        rsp = {}
+        for e in order:
+            f = ninjafile.expand(rules, e, "rspfile")
+            if f:
+                rsp.setdefault(f, []).append(e["outs"][0])
+        shared = {f: outs for f, outs in rsp.items() if len(outs) > 1}
+        report.count(("graph", "two masters"), True)
+        lits.append(lit)
+        metas.append(dict(kind="graph", format="glyf_colr_1, two masters", edges=len(order), problems=[]))
+        if shared:
+            report_failure(report, "graph_rspfile", dict(kind="graph", format="glyf_colr_1, two masters", problems=[f"edges {outs} all write the response file {f}" for f, outs in shared.items()]))
+            return
     bad = eval_bad_indices(IMPORTS, "", "list edge", lits, ["graph_ok"], tag="graphs", shard=20)
     report.notes["graphs_checked"] = len(lits)
     for i in bad["graph_ok"]:
